@@ -207,6 +207,51 @@ var fragLib = []fragGen{
 			stages: stAny,
 		}
 	},
+	// 19: single-channel storage textures of several scalar kinds, read access
+	func(c *compCtx, k int) fragInst {
+		return fragInst{
+			globals: fmt.Sprintf("%s var rtf%d: texture_storage_2d<r32float, read>;\n%s var rtu%d: texture_storage_2d<r32uint, read>;\n%s var rti%d: texture_storage_2d<r32sint, read>;\n", c.bind(), k, c.bind(), k, c.bind(), k),
+			body:    fmt.Sprintf("acc += textureLoad(rtf%d, vec2<u32>(idx, 1u)).x + f32(textureLoad(rtu%d, vec2<u32>(idx, 2u)).x) + f32(textureLoad(rti%d, vec2<u32>(1u, idx)).x);\n", k, k, k),
+			stages:  stFragment | stCompute,
+		}
+	},
+	// 20: deep call chain whose leaf writes a storage global; a second chain reads it
+	func(c *compCtx, k int) fragInst {
+		return fragInst{
+			globals: fmt.Sprintf("struct Dat%d { values: array<u32, 16> }\n%s var<storage, read_write> dat%d: Dat%d;\n"+
+				"fn wl0_%d(i: u32) { dat%d.values[i %% 16u] = dat%d.values[i %% 16u] + 1u; }\nfn wl1_%d(i: u32) { wl0_%d(i); }\nfn wl2_%d(i: u32) { wl1_%d(i + 1u); }\nfn wl3_%d(i: u32) { wl2_%d(i); }\n"+
+				"fn rl0_%d(i: u32) -> u32 { return dat%d.values[i %% 16u]; }\nfn rl1_%d(i: u32) -> u32 { return rl0_%d(i) + 1u; }\nfn rl2_%d(i: u32) -> u32 { return rl1_%d(i) * 2u; }\n",
+				k, c.bind(), k, k, k, k, k, k, k, k, k, k, k, k, k, k, k, k, k),
+			body:   fmt.Sprintf("wl3_%d(idx);\nacc += f32(rl2_%d(idx));\n", k, k),
+			stages: stFragment | stCompute,
+		}
+	},
+	// 21: struct values built with constructors, returned from helpers
+	func(c *compCtx, k int) fragInst {
+		return fragInst{
+			globals: fmt.Sprintf("struct PA%d { p: vec2<f32>, w: f32 }\nstruct PB%d { a: PA%d, n: u32 }\nfn mkA%d(x: f32) -> PA%d { return PA%d(vec2<f32>(x, x * 2.0), x + 1.0); }\nfn mkB%d(x: f32, n: u32) -> PB%d { return PB%d(mkA%d(x), n); }\n",
+				k, k, k, k, k, k, k, k, k, k),
+			body:   fmt.Sprintf("let pb%d = mkB%d(acc, idx);\nlet pa%d = PA%d(pb%d.a.p.yx, f32(pb%d.n));\nacc += pa%d.w + pa%d.p.x;\n", k, k, k, k, k, k, k, k),
+			stages: stAny,
+		}
+	},
+	// 22: two side-effecting helpers (kept as real functions by inlining policies)
+	func(c *compCtx, k int) fragInst {
+		return fragInst{
+			globals: fmt.Sprintf("%s var<storage, read_write> se%d: array<vec4<f32>>;\nfn seA%d(i: u32, v: f32) { if (i < 8u) { se%d[i] = vec4<f32>(v); } }\nfn seB%d(i: u32, v: f32) { for (var q = 0u; q < 2u; q++) { se%d[i + q].x += v; } }\n", c.bind(), k, k, k, k, k),
+			body:    fmt.Sprintf("seA%d(idx, acc);\nseB%d(idx, acc * 0.5);\n", k, k),
+			stages:  stFragment | stCompute,
+		}
+	},
+	// 23: texture arrays, cube, multisampled and 3d queries
+	func(c *compCtx, k int) fragInst {
+		return fragInst{
+			globals: fmt.Sprintf("%s var ta%d: texture_2d_array<f32>;\n%s var tc%d: texture_cube<f32>;\n%s var tm%d: texture_multisampled_2d<f32>;\n%s var t3%d: texture_3d<f32>;\n%s var smq%d: sampler;\n", c.bind(), k, c.bind(), k, c.bind(), k, c.bind(), k, c.bind(), k),
+			body: fmt.Sprintf("acc += textureSampleLevel(ta%d, smq%d, vec2<f32>(0.5), i32(idx %% 2u), 0.0).x + textureSampleLevel(tc%d, smq%d, vec3<f32>(acc, 1.0, 0.0), 0.0).y;\nacc += textureLoad(tm%d, vec2<i32>(1, 1), i32(idx %% 4u)).z + f32(textureNumLayers(ta%d) + textureNumSamples(tm%d)) + f32(textureDimensions(t3%d).z);\n",
+				k, k, k, k, k, k, k, k),
+			stages: stAny,
+		}
+	},
 }
 
 // push constants (at most one per module)
@@ -321,9 +366,9 @@ func composerPrograms(seed uint64) []proto.Source {
 		r := newRng(seed, 0xC0DE0000+uint64(i))
 		mode := 0
 		switch {
-		case i%3 == 1:
+		case i%4 == 1:
 			mode = 1
-		case i%3 == 2:
+		case i%4 == 3:
 			mode = 2
 		}
 		out = append(out, composeProgram(r, fmt.Sprintf("composed-%d-s%d-m%d", i, seed, mode), mode))
